@@ -79,6 +79,10 @@ func near(got, want, scale float64) bool {
 }
 
 // run feeds the points in the given batching to a fresh aggregator and returns the flushed timer.
+// siblingMode: another timer series of the same name (tag sibling:1) is received in every batch before (1) or after (2)
+// the series under test; what a series reports must not depend on who shares its name or its batch.
+var siblingMode int
+
 func run(t vt.TB, pcts []float64, mask gostatsd.TimerSubtypes, limit uint32, tags gostatsd.Tags, batches [][]point, interval time.Duration) gostatsd.Timer {
 	agg := statsd.NewMetricAggregator(pcts, 0, 0, 0, 0, mask, limit)
 	if countPoints(batches) == 0 {
@@ -91,8 +95,15 @@ func run(t vt.TB, pcts []float64, mask gostatsd.TimerSubtypes, limit uint32, tag
 	}
 	for _, b := range batches {
 		mm := gostatsd.NewMetricMap(false)
+		sib := &gostatsd.Metric{Name: "t", Type: gostatsd.TIMER, Value: 7, Rate: 0.5, Tags: gostatsd.Tags{"sibling:1"}, Timestamp: 1}
+		if siblingMode == 1 {
+			mm.Receive(sib)
+		}
 		for _, p := range b {
 			mm.Receive(&gostatsd.Metric{Name: "t", Type: gostatsd.TIMER, Value: p.v, Rate: p.rate, Tags: tags.Copy(), Timestamp: 1})
+		}
+		if siblingMode == 2 {
+			mm.Receive(sib)
 		}
 		agg.ReceiveMap(mm)
 	}
@@ -109,6 +120,9 @@ func run(t vt.TB, pcts []float64, mask gostatsd.TimerSubtypes, limit uint32, tag
 	found := 0
 	agg.Process(func(mm *gostatsd.MetricMap) {
 		mm.Timers.Each(func(n, k string, tm gostatsd.Timer) {
+			if len(tm.Tags) == 1 && tm.Tags[0] == "sibling:1" {
+				return
+			}
 			out = tm
 			found++
 		})
@@ -196,6 +210,7 @@ func TestTimerStatistics(t *testing.T) {
 		tags := gostatsd.Tags(rapid.SampledFrom([][]string{nil, {"a:b"}, {"x", "y:z"}}).Draw(t, "tags"))
 
 		batches := split(t, pts)
+		siblingMode = rapid.IntRange(0, 2).Draw(t, "sibling-series")
 		tm := run(t, pcts, mask, math.MaxUint32, tags, batches, interval)
 		checkStats(t, tm, pts, pcts, mask, interval)
 
